@@ -88,6 +88,12 @@ def hooks():
         m = mp(ex, args[0])
         return Iter(ListModel([Ptr(e, 1) for e in m.entries], kind='Values'), by_value=True)
     def h_to_string(ex, st, callee, args): return V.StrTok(tok(ex, args[0]))
+    def h_opt_time_eq(ex, st, callee, args):
+        a, b = ex.deref(args[0]), ex.deref(args[1])
+        if not (isinstance(a, Enum) and isinstance(b, Enum)): return NotImplemented
+        pa = (a.fields.get('Some') or [BitVecVal(0, 64)])[0]; pb = (b.fields.get('Some') or [BitVecVal(0, 64)])[0]
+        e = And(a.disc == b.disc, Or(a.disc == 0, pa == pb))
+        return Not(e) if callee.endswith('::ne') else e
     return [
         (r'^HashMap::<(?:std::string::)?String, SourceWatermark, FxBuildHasher>::get_mut::<str>$', h_get_mut),
         (r'^HashMap::<(?:std::string::)?String, SourceWatermark, FxBuildHasher>::insert$', h_insert),
@@ -97,6 +103,7 @@ def hooks():
         (r'^<str as ToString>::to_string$', h_to_string),
         (r'^(?:chrono::)?TimeDelta::zero$', lambda ex, st, callee, args: BitVecVal(0, 64)),
         (r'^std::time::Instant::now$', lambda ex, st, callee, args: Opaque('instant')),
+        (r'^<(?:std::option::)?Option<(?:chrono::)?DateTime<(?:chrono::)?Utc>> as PartialEq>::(eq|ne)$', h_opt_time_eq),
     ]
 
 
